@@ -269,6 +269,8 @@ func genHSScript(rng *Rng) (bool, []string, []string) {
 	for i := 0; i < nreq; i++ {
 		if rng.Chance(10) {
 			req = append(req, "x"+strconv.Itoa(100+i))
+		} else if rng.Chance(15) {
+			req = append(req, "d0") // a message whose encoding is empty: a frame with size preface 0
 		} else {
 			req = append(req, "d"+strconv.Itoa(100+i))
 		}
